@@ -320,6 +320,9 @@ def file_monotone_stream(ctx, stream, n):
 
 def run(ctx: Ctx):
     run_witnesses(ctx)
+    from ..rules_common import interpreter_modes
+
+    interpreter_modes(ctx, "rules")
     flag_rows(ctx)
     quick = ctx.quick()
     # exhaustive small scope
